@@ -149,6 +149,10 @@ class World:
         self.thread_started = 0
         self.thread_joined = 0
         self.in_main = False
+        # canonical schedule inside blocking main-thread calls: eager = executor jobs finish as soon as the
+        # loop has nothing ready; lazy = they finish only when neither a ready handle nor a timer is left
+        self.lazy = False
+        self.idle_quanta = 0
 
     # -- shims -------------------------------------------------------------
     def install(self):
@@ -252,7 +256,21 @@ class World:
             opts = [("return",)] + en
             # default: first non-timer action if any; else one tick (once); else return
             nont = [a for a in en if a[0] != "tick"]
-            if nont:
+            steps = [a for a in en if a[0] == "step"]
+            comps = [a for a in en if a[0] == "complete"]
+            if self.lazy and steps:
+                order = steps + [("return",)] + comps + [a for a in en if a[0] == "tick"]
+            elif self.lazy and ("tick",) in en and not ticked:
+                order = [("tick",), ("return",)] + comps
+            elif self.lazy:
+                # nothing but executor jobs left: a slow executor lets the main thread come back a few times
+                # empty-handed before a job finishes (fairness: it does finish eventually)
+                self.idle_quanta += 1
+                if self.idle_quanta > 2:
+                    order = comps + [("return",)] + [a for a in en if a[0] == "tick"]
+                else:
+                    order = [("return",)] + comps + [a for a in en if a[0] == "tick"]
+            elif nont:
                 order = nont + [("return",)] + [a for a in en if a[0] == "tick"]
             elif ("tick",) in en and not ticked:
                 order = [("tick",), ("return",)]
@@ -265,6 +283,8 @@ class World:
                 return
             if act[0] == "tick":
                 ticked = True
+            if act[0] in ("step", "complete"):
+                self.idle_quanta = 0
             self.perform(act)
 
     def drain(self, until, label):
